@@ -39,6 +39,7 @@ def run(ctx):
     ctx.do(rule_writer_accepts_what_encoders_send)
     ctx.do(rule_truncated_in_utc)
     ctx.do(rule_value_object)
+    ctx.do(rule_state_keys_agree)
     ctx.do(rule_api_domain)
     ctx.do(rule_property_forward)
     from .hidden_state import rule_no_hidden_state
@@ -546,6 +547,44 @@ def rule_value_object(ctx, rule_id="C15.value-object"):
               "copied / deep-copied / unpickled timestamp is written with other digits than its original (.120Z -> .12Z, "
               ".000Z -> Z)", file=rel, line=sd.node.lineno, function="STIXdatetime",
               expected="__reduce_ex__ returning the (precision, precision_constraint) state", found=sorted(sd.methods))
+
+
+def rule_state_keys_agree(ctx, rule_id="C15.value-object"):
+    """Copy / pickle protocol of STIXdatetime: __reduce_ex__ hands the metadata on as a state dictionary; the default
+    __setstate__ stores exactly those keys as attributes.  If the class defines its own __setstate__ (or __getstate__), the
+    keys it READS are the keys the producer WRITES and the attributes it sets are the ones format_datetime reads -- a misspelt
+    key silently falls back to a default precision and the copy is written with other digits than the original."""
+    run = ctx.run
+    prog = ctx.prog
+    cls = prog.cls(U + "::STIXdatetime")
+    red = cls.methods.get("__reduce_ex__")
+    produced = set()
+    if red is not None:
+        for d in [x for x in body_walk(red.node) if isinstance(x, ast.Dict)]:
+            produced |= {k.value for k in d.keys if isinstance(k, ast.Constant)}
+    ss = cls.methods.get("__setstate__")
+    if ss is None:
+        run.ok(rule_id, key(cls.module.relpath, cls.qualname, "state-keys-agree"), "default __setstate__: state keys become attributes")
+        want_attrs = {"precision", "precision_constraint"}
+        run.check(produced == want_attrs, rule_id, key(cls.module.relpath, cls.qualname, "state-is-the-metadata"),
+                  "the state __reduce_ex__ hands on is not exactly the metadata attributes format_datetime reads", file=cls.module.relpath,
+                  line=(red.node.lineno if red else cls.node.lineno), function=cls.qualname, expected=sorted(want_attrs), found=sorted(produced))
+        return
+    p0 = ss.params[1] if len(ss.params) > 1 else "state"
+    read = set()
+    for x in body_walk(ss.node):
+        if isinstance(x, ast.Subscript) and norm(x.value) == p0 and isinstance(x.slice, ast.Constant):
+            read.add(x.slice.value)
+        if isinstance(x, ast.Call) and isinstance(x.func, ast.Attribute) and x.func.attr in ("get", "pop") and norm(x.func.value) == p0 \
+                and x.args and isinstance(x.args[0], ast.Constant):
+            read.add(x.args[0].value)
+    setattrs = {t.attr for a_ in body_walk(ss.node) if isinstance(a_, ast.Assign) for t in a_.targets if isinstance(t, ast.Attribute)
+                and isinstance(t.value, ast.Name) and t.value.id == "self"}
+    ok = read == produced and setattrs >= {"precision", "precision_constraint"}
+    run.check(ok, rule_id, key(cls.module.relpath, cls.qualname, "state-keys-agree"),
+              "__setstate__ reads the keys %s but __reduce_ex__ writes %s (attributes set: %s): metadata is lost or defaulted when a "
+              "timestamp is copied or unpickled" % (sorted(read), sorted(produced), sorted(setattrs)), file=cls.module.relpath,
+              line=ss.node.lineno, function=ss.qualname, expected=sorted(produced), found=sorted(read))
 
 
 def rule_api_domain(ctx):
